@@ -90,8 +90,15 @@ func golden(eng *Engine) (pass, fail int, failures []string) {
 	eng.Map(len(items), func(s *Slot, i int) {
 		it := items[i]
 		var r *Result
-		for attempt := 0; attempt < 3; attempt++ {
+		for attempt := 0; attempt < 8; attempt++ {
 			r = runBinary(eng, eng.B.Plain, dir, append([]string{it.File}, it.Args...), nil)
+			if !r.Timeout() {
+				break
+			}
+			// the product's wall-clock watchdog fired on a loaded machine: retry alone
+			eng.Quiet(func() {
+				r = runBinary(eng, eng.B.Plain, dir, append([]string{it.File}, it.Args...), nil)
+			})
 			if !r.Timeout() {
 				break
 			}
